@@ -186,8 +186,9 @@ def apply_step(st: Store, sn: str, i: int, ev: dict, stp: str, res: dict, ctx: d
             elems = _parse_set(ev["set"])
             stale_ok = True
             st_sync = st.clone()
-            # COPY/MOVE first flush the session's pending responses (EXPUNGE allowed there)
-            alts = _resolve_alts(st, sn, elems, uid, stale_ok)
+            # the numbers denote messages of the view the session has been told about (or the command is refused); the
+            # session's pending responses are flushed afterwards
+            alts = _resolve_alts(st, sn, elems, uid, stale_ok, may_renumber=False)
             for alt in alts:
                 st2 = st.clone()
                 if alt == "REFUSED":
